@@ -36,6 +36,27 @@ use directive_tree::DirectiveTree;
 
 type LogicalLineRef = usize;
 
+/// Verification hook: a log of the parser's line-state mutations (one letter per primitive) and the
+/// lines of each pass, recorded only between `start` and `take`.
+#[cfg(feature = "verif-hooks")]
+pub mod verif_events {
+    use std::cell::RefCell;
+    thread_local! { static LOG: RefCell<Option<String>> = const { RefCell::new(None) }; }
+    pub fn start() {
+        LOG.with(|l| *l.borrow_mut() = Some(String::new()));
+    }
+    pub fn take() -> String {
+        LOG.with(|l| l.borrow_mut().take().unwrap_or_default())
+    }
+    pub(super) fn ev(s: &str) {
+        LOG.with(|l| {
+            if let Some(b) = l.borrow_mut().as_mut() {
+                b.push_str(s);
+            }
+        });
+    }
+}
+
 /// Verification hook: the conditional-directive passes the parser iterates over.
 #[cfg(feature = "verif-hooks")]
 pub fn verif_directive_passes(tokens: &[RawToken]) -> Vec<Vec<usize>> {
@@ -76,9 +97,15 @@ fn parse_file(tokens: &mut [RawToken]) -> Vec<LogicalLine> {
     let mut lines = FxHashMap::default();
     let mut attributed_directives = FxHashSet::default();
     for pass_tokens in tree.passes() {
+        #[cfg(feature = "verif-hooks")]
+        verif_events::ev("\nPASS ");
         let pass_lines =
             InternalDelphiLogicalLineParser::new(tokens, &pass_tokens, &mut attributed_directives)
                 .parse();
+        #[cfg(feature = "verif-hooks")]
+        for line in &pass_lines {
+            verif_events::ev(&format!("\nPL {:?}", line.tokens));
+        }
         /*
             This pass over the tokens ensures that their consolidated token type
             is cemented after the first run that encounters them.
@@ -801,6 +828,8 @@ impl<'a, 'b> InternalDelphiLogicalLineParser<'a, 'b> {
         }
         // To add tokens to the last child line, it must be the `current_line`
         self.current_line.push(self.last_finished_line);
+        #[cfg(feature = "verif-hooks")]
+        verif_events::ev("R");
 
         let line_was_empty = self.is_at_start_of_line();
 
@@ -818,6 +847,8 @@ impl<'a, 'b> InternalDelphiLogicalLineParser<'a, 'b> {
         self.context.pop();
 
         self.current_line.pop();
+        #[cfg(feature = "verif-hooks")]
+        verif_events::ev("r");
     }
 
     fn parse_comment_lines(&mut self) {
@@ -1243,6 +1274,8 @@ impl<'a, 'b> InternalDelphiLogicalLineParser<'a, 'b> {
             });
             self.current_line.push(new_logical_line);
             self.last_finished_line = new_logical_line;
+            #[cfg(feature = "verif-hooks")]
+            verif_events::ev("C");
         } else {
             self.finish_logical_line();
         }
@@ -1253,6 +1286,8 @@ impl<'a, 'b> InternalDelphiLogicalLineParser<'a, 'b> {
 
         if context_parent.is_some() {
             self.current_line.pop();
+            #[cfg(feature = "verif-hooks")]
+            verif_events::ev("c");
         }
     }
     fn parse_parens(&mut self) {
@@ -1830,6 +1865,8 @@ impl<'a, 'b> InternalDelphiLogicalLineParser<'a, 'b> {
             .get_current_token_type()
             .zip(self.get_current_token_index())
         {
+            #[cfg(feature = "verif-hooks")]
+            verif_events::ev("T");
             self.get_current_logical_line_mut().tokens.push(token_index);
             self.pass_index += 1;
         }
@@ -1861,6 +1898,8 @@ impl<'a, 'b> InternalDelphiLogicalLineParser<'a, 'b> {
         });
         *self.current_line.last_mut() = new_logical_line;
         self.last_finished_line = line_ref;
+        #[cfg(feature = "verif-hooks")]
+        verif_events::ev("L");
     }
     fn get_current_logical_line_ref(&self) -> LogicalLineRef {
         *self.current_line.last()
@@ -1897,6 +1936,8 @@ impl<'a, 'b> InternalDelphiLogicalLineParser<'a, 'b> {
 
     fn next_token(&mut self) {
         loop {
+            #[cfg(feature = "verif-hooks")]
+            verif_events::ev("T");
             if let Some(token_index) = self.get_current_token_index() {
                 self.get_current_logical_line_mut().tokens.push(token_index);
                 if let Some(TT::CompilerDirective) = self.get_current_token_type() {
@@ -1924,6 +1965,8 @@ impl<'a, 'b> InternalDelphiLogicalLineParser<'a, 'b> {
     }
 
     fn skip_token(&mut self) {
+        #[cfg(feature = "verif-hooks")]
+        verif_events::ev("S");
         self.pass_index += 1;
     }
 
